@@ -237,72 +237,106 @@ def run(chk):
                     what="call-graph cycle reachable from an entry point without a reviewed depth bound: %s" % ", ".join(F.short_name(c) for c in comp[:6]))
     chk.floor("R-RECURSION", "call-graph cycles examined", ncyc, 2)
     # ------------------------------------------------------------------ R-PROGRESS
-    nprog = 0
+    counter = [0]
     for bid in bodies:
         b = f.bodies[bid]
         if not b.back_edges:
             continue
         eb = None
+        seen_loops = set()
         for (tail, head) in b.back_edges:
-            t = b.blocks[head]["term"]
-            # loop head:  _c = is_empty(slice)   (call)  -> switch
-            if t["k"] != "call" or not (t["callee"].get("resolved") or "").endswith("<impl [T]>::is_empty"):
+            if head in seen_loops:
                 continue
-            eb = eb or ExprBuilder(b)
-            arg = t["args"][0]
-            pj = arg.get("copy") or arg.get("move")
-            if pj is None:
-                continue
-            sl = pj["l"]
-            # the slice local (through one reborrow)
-            src = eb.operand(arg)
-            x = src
-            while x[0] in ("ref", "deref"):
-                x = x[1]
-            if x[0] != "var":
-                continue
-            sl = x[1]
+            seen_loops.add(head)
             loop = b.natural_loop(head)
-            # re-slicing statements inside the loop:  sl = index(sl, RangeFrom{k})
-            for bi, t2 in b.calls():
-                if bi not in loop:
+            eb = eb or ExprBuilder(b)
+            # slices whose length (is_empty / len) is read inside the loop: the loop's exit may depend on them
+            tested = set()
+            for bi0, t0 in b.calls():
+                if bi0 not in loop:
                     continue
-                r2 = t2["callee"].get("resolved") or ""
-                if "Index" not in r2 and "index" not in r2:
+                r0 = t0["callee"].get("resolved") or ""
+                if not (r0.endswith("<impl [T]>::is_empty") or r0.endswith("<impl [T]>::len")):
                     continue
-                e = eb.call_expr(t2)
-                txt = show(e)
-                if "RangeFrom{" not in txt:
-                    continue
-                base = eb.operand(t2["args"][0])
-                y = base
-                while y[0] in ("ref", "deref"):
-                    y = y[1]
-                if y[0] != "var" or y[1] != sl:
-                    continue
-                nprog += 1
-                an = Analyzer(f, interproc=ip)
-                an.analyze(b, collect=False)
-                st = an.state_before_term(bi)
-                ok = False
-                k_txt = txt
-                if st:
-                    # value of the RangeFrom's start
-                    rp = t2["args"][1]
-                    rpj = rp.get("copy") or rp.get("move")
-                    if rpj is not None:
-                        can = an.canon(st, rpj)
-                        if can is not None:
-                            sv = st.sym.get((can[0], can[1] + ("start",)))
-                            val = sv if sv is not None else ("n", ("v", can[0], can[1] + ("start",)), 0)
-                            if val[0] in ("n", "iv"):
-                                lo = st.val_iv(val)[0]
-                                ok = lo is not None and lo >= 1
-                chk.obligation(ok)
-                if not ok:
-                    chk.finding("%s|progress|%s" % (b.short(), k_txt[:70]), rule="R-PROGRESS", where="%s:%s" % (b.file, t2["line"]), fn=b.short(),
-                                what="the loop runs until the slice is empty but advances it by an amount that may be 0: %s" % k_txt[:100])
+                x = eb.operand(t0["args"][0])
+                while x[0] in ("ref", "deref"):
+                    x = x[1]
+                if x[0] == "var":
+                    tested.add(x[1])
+            for sl in sorted(tested):
+                _progress_loop(chk, f, ip, b, eb, loop, sl, counter)
+    nprog = counter[0]
     chk.floor("R-PROGRESS", "consume-until-empty loops examined", nprog, 1)
     return chk.finish("%d magnitude sinks reachable from %d entry points: %d bounded where they stand, the rest lifted to their callers; "
                       "unbounded sinks fed by a magnitude source are violations, %d unbounded sinks of unknown provenance are reported as undecided; "
                       "%d call-graph cycles and %d consume-until-empty loops examined." % (nsinks, len(roots), nbounded, undecided, ncyc, nprog), reviewed=reviewed)
+
+
+def _progress_loop(chk, f, ip, b, eb, loop, sl, counter):
+    """re-slicing statements inside the loop:  sl = index(sl, RangeFrom{k})  must advance by k >= 1"""
+    # re-slicing statements inside the loop:  sl = index(sl, RangeFrom{k})
+    for bi, t2 in b.calls():
+        if bi not in loop:
+            continue
+        r2 = t2["callee"].get("resolved") or ""
+        if "Index" not in r2 and "index" not in r2:
+            continue
+        e = eb.call_expr(t2)
+        txt = show(e)
+        if "RangeFrom{" not in txt:
+            continue
+        base = eb.operand(t2["args"][0])
+        y = base
+        while y[0] in ("ref", "deref"):
+            y = y[1]
+        if y[0] != "var" or y[1] != sl:
+            continue
+        if not _flows_back(b, loop, t2["dest"]["l"], sl):
+            continue            # a sub-slice handed to something else, not the loop's own cursor
+        counter[0] += 1
+        an = Analyzer(f, interproc=ip)
+        an.analyze(b, collect=False)
+        st = an.state_before_term(bi)
+        ok = False
+        k_txt = txt
+        if st:
+            # value of the RangeFrom's start
+            rp = t2["args"][1]
+            rpj = rp.get("copy") or rp.get("move")
+            if rpj is not None:
+                can = an.canon(st, rpj)
+                if can is not None:
+                    sv = st.sym.get((can[0], can[1] + ("start",)))
+                    val = sv if sv is not None else ("n", ("v", can[0], can[1] + ("start",)), 0)
+                    if val[0] in ("n", "iv"):
+                        lo = st.val_iv(val)[0]
+                        ok = lo is not None and lo >= 1
+        chk.obligation(ok)
+        if not ok:
+            chk.finding("%s|progress|%s" % (b.short(), k_txt[:70]), rule="R-PROGRESS", where="%s:%s" % (b.file, t2["line"]), fn=b.short(),
+                        what="the loop runs until the slice is empty but advances it by an amount that may be 0: %s" % k_txt[:100])
+
+
+def _flows_back(b, loop, src, dst):
+    """does the value of local `src` reach local `dst` through plain moves / reborrows inside the loop?"""
+    reach = {src}
+    changed = True
+    while changed:
+        changed = False
+        for bi in loop:
+            for st in b.blocks[bi]["stmts"]:
+                if st["k"] != "assign" or st["p"].get("p"):
+                    continue
+                rv = st["rv"]
+                if rv["k"] == "use":
+                    pj = rv["a"].get("copy") or rv["a"].get("move")
+                elif rv["k"] == "ref":
+                    pj = rv["p"]
+                else:
+                    continue
+                if pj is None or pj["l"] not in reach or any(x != "*" for x in (pj.get("p") or [])):
+                    continue
+                if st["p"]["l"] not in reach:
+                    reach.add(st["p"]["l"])
+                    changed = True
+    return dst in reach
